@@ -166,6 +166,18 @@ func runRollup(e *childEnv) {
 			}
 		}
 	}
+	// zones that move their clock: hours of a 23 h and of a 25 h day (first hour, the hours around the moved hour,
+	// the hours 22..24 after midnight, the last hour, the first hour of the next day)
+	dstFams := map[int64]bool{}
+	for _, t := range pickTransitionDays(cal, e.seed+int64(e.shard), e.pick(1, 6)) {
+		for _, ts := range []int64{t.Start, t.Start + msHour, t.Start + 2*msHour, t.Start + 3*msHour, t.Start + 22*msHour, t.Start + 23*msHour,
+			t.Start + 24*msHour, t.Next - msHour, t.Next} {
+			fs := cal.bucketOf(tDay, ts).FamStart
+			famSet[fs] = true
+			dstFams[fs] = true
+		}
+	}
+	r.Count("rollup/dst/source_families_on_or_after_transition_days", len(dstFams))
 	var fams []int64
 	for f := range famSet {
 		fams = append(fams, f)
@@ -182,6 +194,12 @@ func runRollup(e *childEnv) {
 		t := cal.at(fs)
 		if (t.Month() == 2 && t.Day() == 29 && t.Hour() == 23) || (t.Month() == 12 && t.Day() == 31 && t.Hour() == 23 && t.Year() == 2023) ||
 			(t.Month() == 1 && t.Day() == 1 && t.Hour() == 0 && t.Year() == 2024) {
+			denseFams[fs] = true
+		}
+	}
+
+	for fs := range dstFams { // always: the first hour and the 25th hour of a 25 h day
+		if sit := cal.dstSituation(fs); sit == "25h-day-25th-hour" || sit == "25h-day" && fs == cal.bucketOf(tMonth, fs).FamStart {
 			denseFams[fs] = true
 		}
 	}
@@ -340,11 +358,20 @@ func runRollup(e *childEnv) {
 		}
 		// dense families: every target slot holds exactly as many source points as the calendar maps into it
 		denseWant := map[string]int{}
+		denseWrapped := map[string]int{} // the same with the known defect: month slots reduced modulo 24 h
+		wrappedDiffers := false
 		for fs := range denseSrc {
 			b := cal.bucketOf(tDay, fs)
 			for st := fs; st <= b.FamEnd; st += src {
 				tslot, _, tb := cal.slotOf(target, st)
 				denseWant[fmt.Sprintf("%s/%s/%d/slot%d", ttyp, tb.SegName, tb.FamNum, tslot)]++
+				wslot := tslot
+				if ttyp == tMonth && st-tb.FamStart >= msDay {
+					wslot = ((st - tb.FamStart) % msDay) / target
+					wrappedDiffers = true
+					r.Count("rollup/dst/month/dense_source_slots_in_25th_hour", 1)
+				}
+				denseWrapped[fmt.Sprintf("%s/%s/%d/slot%d", ttyp, tb.SegName, tb.FamNum, wslot)]++
 			}
 		}
 		r.Eval(len(denseWant))
@@ -358,9 +385,13 @@ func runRollup(e *childEnv) {
 			}
 		}
 		sort.Strings(keys)
+		denseClass := "C13/rollup/" + ttyp + "/dense-source-slots-mapped-to-wrong-target-slot"
+		if wrappedDiffers && sameCounts(denseGot, denseWrapped) {
+			denseClass = classDstRollupDenseWraps
+		}
 		for _, k := range keys {
 			if denseGot[k] != denseWant[k] {
-				r.Violation("C13/rollup/"+ttyp+"/dense-source-slots-mapped-to-wrong-target-slot", fmt.Sprintf("rollup %s->%s: target %s holds %d source points, the calendar maps %d source slots into it",
+				r.Violation(denseClass, fmt.Sprintf("rollup %s->%s: target %s holds %d source points, the calendar maps %d source slots into it",
 					ivName(src), ivName(target), k, denseGot[k], denseWant[k]), e.wit("target", k, "got", denseGot[k], "want", denseWant[k], "sourceInterval", src, "targetInterval", target))
 				break
 			}
@@ -384,10 +415,19 @@ func runRollup(e *childEnv) {
 			case fc[0].Family != want.Family:
 				r.Violation("C13/rollup/"+ttyp+"/point-in-wrong-family", fmt.Sprintf("rollup %s->%s: point at %d(%s) landed in %+v, calendar says %+v", ivName(src), ivName(target), p.Ts, cal.fmt(p.Ts), fc[0], want), w)
 			case fc[0].Slot != want.Slot:
-				r.Violation("C13/rollup/"+ttyp+"/point-in-wrong-slot", fmt.Sprintf("rollup %s->%s: point at %d(%s) (source slot start %d) landed in slot %d of family %s/%s, the target slot containing it is %d (starts %d)",
+				class := "C13/rollup/" + ttyp + "/point-in-wrong-slot"
+				if ttyp == tMonth && srcSlotStart-tb.FamStart >= msDay && int64(fc[0].Slot) == ((srcSlotStart-tb.FamStart)%msDay)/target {
+					class = classDstRollupPointWraps
+				}
+				r.Violation(class, fmt.Sprintf("rollup %s->%s: point at %d(%s) (source slot start %d) landed in slot %d of family %s/%s, the target slot containing it is %d (starts %d)",
 					ivName(src), ivName(target), p.Ts, cal.fmt(p.Ts), srcSlotStart, fc[0].Slot, fc[0].Store, fc[0].Family, want.Slot, tslotStart), w)
 			default:
 				r.Count("rollup/"+ttyp+"/points_in_right_target_slot", 1)
+			}
+			if cal.hasDST() {
+				if sit := cal.dstSituation(p.Ts); sit != "" {
+					r.Count("rollup/dst/"+ttyp+"/points_"+sit, 1)
+				}
 			}
 			if k := boundaryKind(tb, p.Ts); k != "" {
 				r.Nontrivial(e.tz + "|rollup|" + ttyp + "|" + tb.SegName + "|" + k)
@@ -409,4 +449,23 @@ func runRollup(e *childEnv) {
 	if len(points) > 0 {
 		r.Sample(map[string]interface{}{"part": "rollup", "tz": e.tz, "intervals": set, "first_point": points[0], "points": len(points)})
 	}
+}
+
+const (
+	classDstRollupPointWraps = "C13/dst/rollup/month/point-lands-in-slot-wrapped-modulo-24h-on-25h-day"
+	classDstRollupDenseWraps = "C13/dst/rollup/month/dense-25th-hour-slots-land-on-first-hour-slots"
+)
+
+func sameCounts(a, b map[string]int) bool {
+	for k, v := range a {
+		if v != 0 && b[k] != v {
+			return false
+		}
+	}
+	for k, v := range b {
+		if v != 0 && a[k] != v {
+			return false
+		}
+	}
+	return true
 }
